@@ -44,7 +44,16 @@ def run(chk):
     cells += damaged
     cells = list(dict.fromkeys(c for c in cells if c != '' and '\t' not in c and '\n' not in c))
     headers = HEADERS + ['**' + ''.join(chk.rng.choice('abcxyz') for _ in range(4)) for _ in range(3 if full else 1)]
-    chk.rule = ('headers (6 supported non-kern types + unknown ones) x cells: every alternative of the token grammar, '
+    # names NEAR a supported one (one more / one fewer character, other case): unknown types all the same - light corpus
+    known = ['**kern', '**mens', '**root', '**text', '**harm', '**mxhm', '**dyn', '**dynam', '**fing']
+    near = []
+    for k_ in known:
+        near += [k_ + 's', k_ + '2', k_ + 'ics', k_[:-1], k_.upper(), k_ + ' ']
+    near = [h for h in dict.fromkeys(near) if h not in known and h not in headers]
+    light = list(dict.fromkeys(c for c in corpus.all_grammar() + corpus.FREE_TEXT if c != '' and '\t' not in c and '\n' not in c))
+    headers = headers + near
+    cells_of = {h: (light if h in near else cells) for h in headers}
+    chk.rule = ('headers (6 supported non-kern types + unknown ones, plus ~45 names one edit away from a supported type on the grammar corpus) x cells: every alternative of the token grammar, '
                 'free text, damaged tokens (every proper prefix and single-character deletion of the grammar alternatives; a '
                 'third of them in the quick tier), random character strings; non-trivial = distinct (header, cell)')
     # kern outcome of every cell
@@ -67,7 +76,7 @@ def run(chk):
             impl_cls = type(kp.createImporter(h)).__name__
             if cls != 'ok:' + impl_cls:
                 chk.mismatch('createImporter', h, f'impl={impl_cls} model={cls}')
-        for s in cells:
+        for s in cells_of[h]:
             k = kern[s]
             chk.case((h, s), kind=(k.category.name if k is not None else 'kern-error'))
             try:
@@ -104,7 +113,7 @@ def run(chk):
     for h, s_, ob_ in obs:
         fresh[(h, s_)] = ob_
     for h in headers:
-        for order in (cells, list(reversed(cells))):
+        for order in (cells_of[h], list(reversed(cells_of[h]))):
             imp = kp.createImporter(h)
             for s_ in order:
                 chk.evaluations += 1
